@@ -250,6 +250,15 @@ func redirOne(in redirInput, cuts []int, script string, hello []byte) {
 			time.Sleep(40 * time.Second)
 		}
 	}
+	if in.complete && script == "dialfail" {
+		// "a transparent relay to the redirect target (or just closes)": with the target unreachable there is
+		// nothing to relay to, so the server closes the peer's connection - it does not keep it open with
+		// nobody reading it
+		srvEnd := r.net.ConnByName(strings.TrimSuffix(peer.Name, "/a") + "/b")
+		if srvEnd != nil && !srvEnd.IsClosed() {
+			vrt.Fail("relay-or-close", "input %s cuts %v: the redirect target cannot be reached; 20 s after the peer's complete first packet the server has neither relayed nor closed the peer's connection (it stays open with nothing attending to it)", in.name, cuts)
+		}
+	}
 	vrt.Observe("%s web=%d/%d peer=%d/%d open=%v", script, len(webGot), len(sent), len(peerGot), len(script0), webOpen)
 }
 
@@ -596,6 +605,15 @@ func init() {
 					want = nil
 					r := newE2ERig(nil, nil, nil)
 					r.sta.RedirPort = cfgPort
+					switch c.P("host", "") {
+					case "v4":
+						r.sta.RedirHost = &net.IPAddr{IP: net.IPv4(192, 0, 2, 7)}
+					case "v6":
+						// RedirAddr given as an IPv6 literal: the dialled address is "[2001:db8::2]:port"
+						r.sta.RedirHost = &net.IPAddr{IP: net.ParseIP("2001:db8::2")}
+					case "v6zone":
+						r.sta.RedirHost = &net.IPAddr{IP: net.ParseIP("fe80::1"), Zone: "eth0"}
+					}
 					l80 := r.net.Listen("server:80", false)
 					vrt.Go("web", func() {
 						for {
@@ -673,7 +691,12 @@ func init() {
 		jobs = append(jobs, vx.Job{Scenario: "auth.second", Params: vx.P("transport", "direct"), Weight: 3})
 		jobs = append(jobs, vx.Job{Scenario: "redir.realstate", Params: vx.P("wait", "12"), Weight: 6})
 		jobs = append(jobs, vx.Job{Scenario: "redir.tcp", Weight: 3})
+		// valid hellos with an unauthorised UID or an unserved method against a State built by InitState (C07's driver)
+		jobs = append(jobs, vx.Job{Scenario: "auth.initstate", Weight: 2})
 		jobs = append(jobs, vx.Job{Scenario: "redir.target", Params: vx.P("depth", map[bool]string{true: "3", false: "5"}[q]), Weight: 1})
+		for _, h := range []string{"v4", "v6", "v6zone"} {
+			jobs = append(jobs, vx.Job{Scenario: "redir.target", Params: vx.P("depth", "2", "host", h), Weight: 1})
+		}
 		return jobs
 	})
 }
